@@ -342,7 +342,8 @@ impl Version {
         if input.len() > MAX_LENGTH {
             return Err(SemverError {
                 input: input.into(),
-                span: (input.len() - 1, 0).into(),
+                // points at the last character, which may be more than one byte long
+                span: (input.char_indices().last().map_or(0, |(i, _)| i), 0).into(),
                 kind: SemverErrorKind::MaxLengthError,
             });
         }
